@@ -413,6 +413,43 @@ func c20Compact(r *Run, db *SiteDB) {
 				"the device number is converted through "+narrow+" before encodeLikely: its upper bits (large majors/minors) are discarded before the 'upper bits must be zero' test can see them, so distinct devices get the same path")
 		}
 	}
+	// ... and nowhere in localToQid is the device or inode number cut below 64 bits: the
+	// fallback table's key must carry all of (st_dev, st_ino), or two files that differ only
+	// in the bits cut off share one table entry and therefore one path
+	if ltq := r.L.Func("fsimpl/localfs", "localToQid"); ltq != nil {
+		var narrowAt token.Pos
+		what := ""
+		ast.Inspect(ltq.Decl.Body, func(n ast.Node) bool {
+			switch v := n.(type) {
+			case *ast.CallExpr:
+				if tv, ok := info.Types[v.Fun]; ok && tv.IsType() && len(v.Args) == 1 {
+					if b, ok := tv.Type.Underlying().(*types.Basic); ok && b.Info()&types.IsInteger != 0 {
+						switch b.Kind() {
+						case types.Uint32, types.Int32, types.Uint16, types.Int16, types.Uint8, types.Int8:
+							if a := norm(v.Args[0]); strings.Contains(a, ".Dev") || strings.Contains(a, ".Ino") {
+								narrowAt, what = v.Pos(), norm(v)
+							}
+						}
+					}
+				}
+			case *ast.CompositeLit:
+				if st, ok := info.TypeOf(v).Underlying().(*types.Struct); ok {
+					for i := 0; i < st.NumFields(); i++ {
+						if b, ok := st.Field(i).Type().Underlying().(*types.Basic); ok && b.Info()&types.IsInteger != 0 {
+							switch b.Kind() {
+							case types.Uint64, types.Int64, types.Uintptr:
+							default:
+								narrowAt, what = v.Pos(), "field "+st.Field(i).Name()+" "+b.Name()+" of the key "+norm(v.Type)
+							}
+						}
+					}
+				}
+			}
+			return true
+		})
+		r.check(narrowAt == token.NoPos, "r2", "localToQid: device and inode number are kept at 64 bits", ltq.Decl.Pos(), "no conversion of Stat_t.Dev/Ino below 64 bits, key fields are 64-bit",
+			"the device or inode number is cut below 64 bits ("+what+"): two files whose numbers differ only in the bits cut off get the same fallback path")
+	}
 	// fallback range starts at 1<<63
 	okStart := false
 	for _, f := range lp.Syntax {
